@@ -60,11 +60,18 @@ TfOps == { <<"translate",3,1>>, <<"translate",-2,2>>, <<"translate",0,4>>,
            <<"scale",2,2,1>>, <<"scale",1,1,2>>, <<"scale",2,1,1>>, <<"scale",-1,1,1>>,
            <<"rotate",90,8,8>>, <<"rotate",180,8,8>>, <<"rotate",270,8,8>>, <<"rotate",90,0,0>>,
            <<"skewX",45>>, <<"skewY",45>>,
-           <<"matrix",0,1,1,0,0,0>>, <<"matrix",1,0,0,-1,0,16>>, <<"matrix",1,1,-1,1,8,0>> }
+           <<"matrix",0,1,1,0,0,0>>, <<"matrix",1,0,0,-1,0,16>>, <<"matrix",1,1,-1,1,8,0>>,
+           \* close to the identity (entries over 8): within a coefficient-wise tolerance of 0.16 but
+           \* displacing far-away geometry by up to 2 units
+           <<"matrixq",8,0,1,8,0,0,8>>, <<"matrixq",9,0,0,9,0,0,8>>, <<"matrixq",8,1,0,8,0,0,8>> }
 
-TfList(n_) == IF MaybeN(101, 55) THEN <<>>
-          ELSE IF MaybeN(102, 60) THEN <<PickN(103, TfOps)>>
-          ELSE <<PickN(104, TfOps), PickN(105, TfOps)>>
+(* the near-identity rational ops carry a denominator; to keep composed CTMs inside TLC's 32-bit *)
+(* integers they are only used alone, on top-level elements of documents with the large viewBox   *)
+QOps == {op \in TfOps : op[1] = "matrixq"}
+TfList(n_) == IF Len(open) = 0 /\ Focus = "struct" /\ MaybeN(106, 22) THEN <<PickN(107, QOps)>>
+              ELSE IF MaybeN(101, 55) THEN <<>>
+              ELSE IF MaybeN(102, 60) THEN <<PickN(103, TfOps \ QOps)>>
+              ELSE <<PickN(104, TfOps \ QOps), PickN(105, TfOps \ QOps)>>
 
 (* ------------------------------------------------------------------------ *)
 (* attribute sets                                                            *)
@@ -156,7 +163,7 @@ AddClipPath ==
   /\ LET cs == Ids({"clipPath"}) \ OpenIds
          cc == IF cs # {} /\ MaybeN(136, 25) THEN << <<"clip-path", PickN(137, cs), 0>> >> ELSE <<>>
      IN Push([d |-> Depth, tag |-> "clipPath", id |-> NewId,
-              at |-> cc \o (IF MaybeN(138, 25) THEN << <<"transform", <<PickN(139, TfOps)>>, 0>> >> ELSE <<>>)
+              at |-> cc \o (IF MaybeN(138, 25) THEN << <<"transform", <<PickN(139, TfOps \ QOps)>>, 0>> >> ELSE <<>>)
                        \o (IF MaybeN(140, 15) THEN << <<"clip-rule", PickN(141, {"nonzero","evenodd"}), 0>> >> ELSE <<>>),
               g |-> <<>>, ref |-> ""])
 
@@ -177,7 +184,7 @@ AddSvg ==
   /\ LET par == IF MaybeN(147, 30) THEN <<>> ELSE IF MaybeN(148, 15) THEN <<"none">>
                 ELSE <<PickN(149, Aligns), PickN(150, {"", "meet", "slice"})>>
          vb  == IF MaybeN(151, 25) THEN <<>> ELSE PickN(152, { <<0,0,16,16>>, <<0,0,8,16>>, <<2,2,12,6>>, <<0,0,32,32>> })
-         tf  == IF MaybeN(153, 30) THEN << <<"transform", <<PickN(154, TfOps)>>, 0>> >> ELSE <<>>
+         tf  == IF MaybeN(153, 30) THEN << <<"transform", <<PickN(154, TfOps \ QOps)>>, 0>> >> ELSE <<>>
      IN Push([d |-> Depth, tag |-> "svg", id |-> "",
               at |-> tf,
               g |-> <<PickN(155, {0, 2, 4}), PickN(156, {0, 1, 4}), PickN(157, {8, 12, 16, -1}), PickN(158, {8, 10, 16, -1}), vb, par,
@@ -187,7 +194,7 @@ AddSvg ==
 (* gradients: coordinates are integers (user units or, for objectBoundingBox, percent strings) *)
 GradUnits(n_) == PickN(160, {"", "userSpaceOnUse", "objectBoundingBox"})
 GradCommon(n_) ==
-     Opt(161, "gradientTransform", { <<PickN(162, TfOps)>>, <<PickN(163, TfOps), PickN(164, TfOps)>> }, 40)
+     Opt(161, "gradientTransform", { <<PickN(162, TfOps \ QOps)>>, <<PickN(163, TfOps \ QOps), PickN(164, TfOps \ QOps)>> }, 40)
   \o Opt(165, "spreadMethod", {"pad", "reflect", "repeat"}, 30)
 
 AddGradient ==
@@ -241,7 +248,11 @@ RootAttrs(n_) == IF Focus \in {"paint", "mixed"} /\ MaybeN(401, 30)
 (* keep the environment inside the uncontroversial part: clipped use => x = y = 0   *)
 HasAttr(at, name) == \E k \in 1..Len(at) : at[k][1] = name
 Settle(nd) == IF nd.tag = "use" /\ HasAttr(nd.at, "clip-path") THEN [nd EXCEPT !.g = <<0, 0>>] ELSE nd
-Doc == [vb |-> <<0, 0, 16, 16>>, root |-> RootAttrs(Len(nodes)),
+(* vb is the region the content lives in (and is sampled on); view is the viewBox attribute that  *)
+(* is written out: picosvg's tolerances are relative to it, so a drawing in the corner of a large    *)
+(* viewBox exposes tolerance misuse                                                                  *)
+View(n_) == IF Focus = "struct" /\ MaybeN(450, 25) THEN <<0, 0, 160, 160>> ELSE <<0, 0, 16, 16>>
+Doc == [vb |-> <<0, 0, 16, 16>>, view |-> View(Len(nodes)), root |-> RootAttrs(Len(nodes)),
         nodes |-> [k \in 1..Len(nodes) |-> Settle(nodes[k])]]
 
 Init == nodes = <<>> /\ open = <<>> /\ done = FALSE /\ rnd \in 0..63
